@@ -90,11 +90,42 @@ class FakeS3:
 FAKE_S3 = FakeS3()
 
 
+def _dlock_misused(args, kwargs):
+    """the call is bound against the signature of the INSTALLED distributed.Lock: handing it a
+    client where that release expects its scheduler connection gives a lock that fails on first
+    use (AttributeError: 'Client' object has no attribute 'semaphore_register')"""
+    import inspect
+    import os
+
+    if not os.environ.get("VERIF_DEV"):
+        return False
+    sig = _REAL_DLOCK_SIG
+    ba = sig.bind(None, *args, **kwargs)  # TypeError for arguments that release does not take, as the real class raises
+    return ba.arguments.get("scheduler_rpc") is not None
+
+
+def _capture_dlock_sig():
+    import inspect
+
+    import distributed
+
+    real = getattr(distributed, "_vf_real_Lock", None) or distributed.Lock
+    if not isinstance(real, type):
+        return inspect.signature(lambda self, name=None, client=None: None)
+    distributed._vf_real_Lock = real
+    return inspect.signature(real.__init__)
+
+
+_REAL_DLOCK_SIG = _capture_dlock_sig()
+
+
 class FakeLock:
-    def __init__(self, name="lock"):
-        self.name = name
+    def __init__(self, name="lock", broken=False):
+        self.name, self.broken = name, broken
 
     def __enter__(self):
+        if self.broken:
+            raise AttributeError("'Client' object has no attribute 'semaphore_register'")
         po.rec().add("ACQ", self.name)
         return self
 
@@ -168,7 +199,7 @@ def _install(mode):
     else:
         s3m._dask_client = lambda: object()
         distributed.Variable = FakeVar
-        distributed.Lock = lambda *a, **k: FakeLock("dlock")
+        distributed.Lock = lambda *a, **k: FakeLock("dlock", broken=_dlock_misused(a, k))
 
 
 def c_interleave(param, tier):
@@ -371,9 +402,11 @@ def _replay_cluster(param, sched):
 
     class DL:
         def __init__(self, *a, **k):
-            pass
+            self.broken = _dlock_misused(a, k)
 
         def __enter__(self):
+            if self.broken:
+                raise AttributeError("'Client' object has no attribute 'semaphore_register'")
             ts.step(tid(), lambda: real_lock.acquire(timeout=3.0))
             return self
 
